@@ -1,6 +1,2 @@
-"""C19 ThresholdCounter"""
-LEVEL = 'exploration'
-LEVEL_TEXT = 'bounded stand-in only (deductive part pending)'
-LEVEL_NOTE = 'bounded'
-TECHNIQUE = 'executable contracts on the real ThresholdCounter, bounded-exhaustive streams'
-EXPLANATION = 'C19'
+from checks._meta import export
+globals().update(export("C19"))
